@@ -1125,6 +1125,48 @@ impl Report {
     }
 }
 
+
+/// Run another harness binary for the same property as a child process (its own sections need
+/// another crate's simulator) and fold its evidence into this report. The child writes its evidence
+/// to VERIF_CHILD_OUT, prints its own VIOLATION lines and writes its own replay files.
+pub fn run_child(rep: &mut Report, exe: &std::path::Path, what: &str) {
+    let cfg = rep.cfg.clone();
+    if cfg.replay.is_some() || cfg.only.is_some() || std::env::var_os("VERIF_CHILD_OUT").is_some() {
+        return;
+    }
+    if !exe.exists() {
+        rep.inconclusive.push(format!("{what}: {} missing", exe.display()));
+        eprintln!("[{}] {what}: {} missing", cfg.prop, exe.display());
+        return;
+    }
+    let out = std::env::temp_dir().join(format!("vh-child-{}-{}.json", cfg.prop, std::process::id()));
+    let status = std::process::Command::new(exe)
+        .args(["--prop", &cfg.prop, "--tier", cfg.tier.as_str(), "--seed", &cfg.seed.to_string(), "--scale", &cfg.scale.to_string(), "--workers", &cfg.workers.to_string()])
+        .env("VERIF_CHILD_OUT", &out)
+        .env("VERIF_ROOT", &cfg.root)
+        .status();
+    match status {
+        Ok(st) => {
+            if let Ok(txt) = std::fs::read_to_string(&out) {
+                if let Ok(ev) = serde_json::from_str::<Value>(&txt) {
+                    rep.add_child_evidence("", &ev);
+                }
+            }
+            let _ = std::fs::remove_file(&out);
+            match st.code() {
+                Some(0) => {}
+                Some(1) => rep.violations.push(Violation {
+                    section: what.to_string(),
+                    failure: Failure { sig: "see_child_output".into(), detail: format!("violation reported by the {what}") },
+                    replay: cfg.root.join("replays"),
+                }),
+                other => rep.inconclusive.push(format!("{what} exited with {other:?}")),
+            }
+        }
+        Err(e) => rep.inconclusive.push(format!("cannot run {what}: {e}")),
+    }
+}
+
 /// Thorough tier: generators may draw longer histories / larger structures (read by strategy fns).
 pub static DEEP: AtomicBool = AtomicBool::new(false);
 
